@@ -58,7 +58,7 @@ def worker(args, scratch):
         if spec is None:
             return {"status": 200, "body": b"unregistered"}
         return spec
-    w = wproxy.World(scratch, runtime="multi:8", handler=handler, log_level="Info")
+    w = wproxy.World(scratch, runtime="multi:8", handler=handler, log_level="Info")  # Info: connection summaries are logged
     try:
         root = w.identity("root", "helper", [])
         guid, secret = "eeeeeeee-0000-4000-8000-000000000001", "%064x" % r.getrandbits(256)
@@ -126,7 +126,16 @@ def worker(args, scratch):
             wit = {"id": vid, "dest": dest, "method": method, "target": target, "req_body_len": len(body), "req_chunked": chunked is not None, "pipeline_depth": depth,
                    "resp_status": spec["status"], "resp_framing": spec["framing"], "resp_body_len": len(spec["body"])}
             if len(ups) != 1:
-                viol("request-not-relayed-exactly-once", dict(wit, seen=len(ups))); return
+                logs = []
+                try:
+                    import glob
+                    for f in glob.glob("/var/log/azure-proxy-agent/ProxyAgent*.log"):
+                        for line in open(f, errors="replace"):
+                            if "503 Service" in line or "Failed to send" in line:
+                                logs.append(line.strip()[-260:])
+                except Exception:
+                    pass
+                viol("request-not-relayed-exactly-once", dict(wit, seen=len(ups), client_got_status=resp.status, agent_log=logs[:4])); return
             u = ups[0]
             if u.host != dest:
                 viol("relayed-to-wrong-host", wit)
